@@ -854,6 +854,8 @@ def execute(plan, ctx):
                           f'replay with altered training-only data raised {type(e).__name__}: {e}')
             return
         e0, e1 = rec['evals'][0, :, f], rep['evals'][0, :, f]
+        # NaN scores are equal whatever their sign bit / payload (0/0 yields nan or -nan depending on the code path numpy takes)
+        e0, e1 = np.where(np.isnan(e0), np.nan, e0), np.where(np.isnan(e1), np.nan, e1)
         if e0.tobytes() != e1.tobytes():
             ctx.violation('noninterf.score', f'{g}:B:score-depends-on-training-data',
                           f'{g} fold {f}: with theta held fixed, altering training-only data changed the fold score '
